@@ -36,7 +36,15 @@ RULE = ("merge: every multiset of <= 3 (quick) / <= 4 (thorough) of the 36 inter
         "an EMPTY list / tuple (no criterion: one run over the whole input) through merge(), children_bp(merge=True) and "
         "merge_all() on one gapped gene/transcript/exon database, compared with the model and with each other; merge_all with "
         "2..3 featuretype groups that each hold runs of their own, under criteria that differ from the default ones in effect, "
-        "handed over as list, tuple, set or single callable. non-trivial = the model has >= 1 multi-member "
+        "handed over as list, tuple, set or single callable; inputs whose FRAME column (8th) varies inside the runs: 1..3 "
+        "(seqid, strand, type) groups on '+' / '-' / '.', each 2..7 CDS / exon pieces that overlap (55%), touch or leave a gap, "
+        "frames cycling 0/2/1, random over {0,1,2,.}, constant with a late change, '.' alternating with a digit, or constant, "
+        "as Feature objects and read from a database, under the default criteria (65%) or random ones, through merge() (+ "
+        "re-merge), merge_all() (keep / exclude, with and without featuretype groups) and children_bp() on a gene whose "
+        "overlapping CDS / exon children carry different frames; (regression class) merge_all(exclude_components=True) with 2..3 "
+        "featuretype groups, every group holding overlapping series of its own (multi-member runs in groups other than the "
+        "last), 70% of the databases with a 'locus' parent outside every group so that the members hold relation rows, default "
+        "and non-default criteria as list / tuple / set / callable. non-trivial = the model has >= 1 multi-member "
         "run and >= 1 singleton; distinct = distinct (features, criteria, follow-up) tuples")
 REQUIRED = ["merge calls", "outputs mapped to inputs by identity", "multi-member runs compared", "singleton outputs compared",
             "position-set union comparisons (default criteria)", "merged ids checked", "calls yielding >= 2 merged outputs",
@@ -85,14 +93,34 @@ REQUIRED = ["merge calls", "outputs mapped to inputs by identity", "multi-member
             "merge_all: groups after the first whose runs differ from the default ones, merge_criteria passed as list",
             "merge_all: groups after the first whose runs differ from the default ones, merge_criteria passed as tuple",
             "merge_all: groups after the first whose runs differ from the default ones, merge_criteria passed as set",
-            "merge_all: groups after the first whose runs differ from the default ones, merge_criteria passed as callable"]
+            "merge_all: groups after the first whose runs differ from the default ones, merge_criteria passed as callable",
+            "merged outputs whose strand is compared with the common strand of their children (default criteria)",
+            "frames: multi-member runs compared whose members carry different frames",
+            "frames: such runs mixing '.' with a digit",
+            "frames: such runs with further members after the first frame change, strand '+'",
+            "frames: such runs with further members after the first frame change, strand '-'",
+            "frames: such runs with further members after the first frame change, strand '.'",
+            "frames: such runs with further members after the first frame change (features read from a database)",
+            "merge_all: runs whose members carry different frames: new feature and deletions compared",
+            "merge_all: runs whose members carry different frames: new feature and level-1 relations compared",
+            "merge_all: such runs with further members after the first frame change",
+            "merge_all: seqid / strand / type of the new features compared with their members' (default criteria)",
+            "children_bp: merge=True over overlapping children carrying different frames compared with union size",
+            "merge_all exclude_components, several groups: calls with multi-member runs in a group other than the last",
+            "merge_all exclude_components, several groups: calls with multi-member runs in two or more groups",
+            "merge_all exclude_components, several groups: members of runs in a group other than the last, each deleted",
+            "merge_all exclude_components, several groups: such members held relation rows before the call",
+            "merge_all: relation rows of deleted members checked to be gone"]
 REQUIRED_CLASSES = ["merge/exhaustive uniform default", "merge/exhaustive grouped default", "merge/exhaustive criteria",
                     "merge/random objects", "merge/random db", "merge_all/keep", "merge_all/exclude", "children_bp",
                     "merge/shaped objects", "merge/shaped db", "merge_all/shaped keep", "merge_all/shaped exclude",
                     "merge/identical features objects", "merge/identical features db", "merge_all/identical features keep",
                     "merge_all/identical features exclude", "children_bp/identical features", "empty criteria/list",
                     "empty criteria/tuple", "merge_all/several groups, criteria as list", "merge_all/several groups, criteria as tuple",
-                    "merge_all/several groups, criteria as set", "merge_all/several groups, criteria as callable"]
+                    "merge_all/several groups, criteria as set", "merge_all/several groups, criteria as callable",
+                    "merge/frames varying inside runs, objects", "merge/frames varying inside runs, db",
+                    "merge_all/frames varying inside runs, keep", "merge_all/frames varying inside runs, exclude",
+                    "children_bp/frames varying among the children", "merge_all/several groups, exclude_components"]
 ASSUMPTIONS = [
     "the shipped criteria carry no documentation beyond their names; the model re-states them as 'cur begins inside the run "
     "or within `reach` bases after it' / 'cur ends inside the run or within `reach` bases before it', with "
@@ -117,6 +145,13 @@ ASSUMPTIONS = [
     "(per featuretype group in merge_all)",
     "merge_all with several featuretype groups: the groups are disjoint and no merged feature of an earlier group has a "
     "featuretype of a later group; a re-iterable merge_criteria (list, tuple, set, one callable) applies to every group alike",
+    "the frame column takes no part in any shipped criterion: runs, extents, children_bp and merge_all's rows are the same "
+    "whatever the members' frames; under the default criteria ('per seqid, strand and type') a merged output / stored new "
+    "feature reports the strand (seqid, type) its members share - only a strand that differs among the children may become "
+    "'.'; which frame the merged feature itself reports is not stated and not judged (counted); under other criteria lists the "
+    "reported strand is only counted",
+    "'deletes them' (exclude_components) includes the relation rows that name a deleted member; asserted in the regression "
+    "class (several featuretype groups, members hanging under a parent outside every group), counted elsewhere",
 ]
 EXHAUSTIVE_NOTE = ("all multisets of <= 3 (quick) or <= 4 (thorough) intervals over 8 positions, both tie orders, are executed "
                    "with uniform labels under the default criteria; labellings and other criteria are sampled")
@@ -373,6 +408,32 @@ def one_merge(ctx, case, db, feats, model_in, desc, step, issued, dbids):
             ctx.mon("members nested in an earlier member that end after their predecessor")
             if beyond:
                 ctx.mon("members nested in an earlier member that begin beyond their predecessor")
+        strands = set(model_in[i]["strand"] for i in members)
+        if is_default(desc):
+            # "per seqid, strand and type": the members of a run share their strand, and the output reports that strand
+            ctx.mon("merged outputs whose strand is compared with the common strand of their children (default criteria)")
+            if len(strands) == 1 and o.strand != list(strands)[0]:
+                return bad("a merged output does not report the strand its children share", got=o.strand, children_strand=list(strands)[0],
+                           children_frames=[getattr(feats[i], "frame", None) for i in members])
+        elif len(strands) == 1 and "strand" in desc:
+            ctx.mon("merged outputs under other criteria holding `strand`: reported strand %s (not asserted)"
+                    % ("equals the children's" if o.strand == list(strands)[0] else "differs from the children's"))
+        frames = case.get("frames")
+        if frames and len(frames) == len(feats) and step != "objects yielded by merge()":
+            fr = [frames[i] for i in members]
+            if len(set(fr)) > 1:
+                sd = list(strands)[0] if len(strands) == 1 else "mixed"
+                ctx.mon("frames: multi-member runs compared whose members carry different frames")
+                ctx.mon("frames: such runs on strand '%s'" % sd)
+                if "." in fr and len(set(fr)) > 1:
+                    ctx.mon("frames: such runs mixing '.' with a digit")
+                change = min(k for k in range(len(fr)) if fr[k] != fr[0])
+                if change < len(fr) - 1:
+                    ctx.mon("frames: such runs with further members after the first frame change")
+                    ctx.mon("frames: such runs with further members after the first frame change, strand '%s'" % sd)
+                    if case["source"] == "db":
+                        ctx.mon("frames: such runs with further members after the first frame change (features read from a database)")
+                ctx.mon("frames: frame reported by such a merged output: %r (not judged)" % (o.frame,))
         ctx.mon("merged ids checked")
         if o.id is None:
             return bad("a merged output has no id")
@@ -440,8 +501,9 @@ def execute_merge(ctx, case):
                 feats = [gffutils.Feature(seqid=r[0], source="src", featuretype=r[2], start=r[3], end=r[4], strand=r[1],
                                           attributes={"note": ["dup"]}, id="in%d" % i) for i, r in enumerate(rows)]
             else:
+                frames = case.get("frames") or ["."] * len(rows)
                 feats = [gffutils.Feature(seqid=r[0], source="src%d" % (i % 2), featuretype=r[2], start=r[3], end=r[4], strand=r[1],
-                                          attributes={"ID": ["in%d" % i]}, id="in%d" % i) for i, r in enumerate(rows)]
+                                          frame=frames[i], attributes={"ID": ["in%d" % i]}, id="in%d" % i) for i, r in enumerate(rows)]
         else:
             dbfn = ctx.tmp(".db") if case.get("dbfile") else ":memory:"
             try:
@@ -453,12 +515,15 @@ def execute_merge(ctx, case):
                         return
                     feats = [db[i] for i in ids]          # one object per stored feature
                 else:
-                    db = gffutils.create_db(G.gff3(rows, case["ids"]), dbfn, from_string=True)
+                    db = gffutils.create_db(G.gff3(rows, case["ids"], frames=case.get("frames")), dbfn, from_string=True)
                     by_id = {f.id: f for f in db.all_features(order_by="start")}
                     feats = [by_id[i] for i in case["ids"]]
             except Exception as ex:
                 ctx.violation(case, {"why": "harness: building the input database raised %r" % (ex,)})
                 return
+        if case.get("frames") and [f.frame for f in feats] != list(case["frames"]):
+            ctx.violation(case, {"why": "harness: the input features do not carry the generated frame column"})
+            return
         strs = [str(f) for f in feats]
         dump0 = dbdump.dump_db(db)
         dbids = set(f["id"] for f in dump0["features"])
@@ -528,8 +593,8 @@ def execute_merge_all(ctx, case):
             raise AssertionError("harness: tie-sensitive criteria generated for rows that tie on the merge order")
     dbfn = ctx.tmp(".db") if case.get("dbfile") else ":memory:"
     try:
-        db = gffutils.create_db(G.gff3(rows, ids, case.get("parents"), same_source=bool(case.get("dup"))), dbfn, from_string=True,
-                                **create_kwargs(case))
+        db = gffutils.create_db(G.gff3(rows, ids, case.get("parents"), same_source=bool(case.get("dup")), frames=case.get("frames")),
+                                dbfn, from_string=True, **create_kwargs(case))
     except Exception as ex:
         ctx.violation(case, {"why": "harness: building the input database raised %r" % (ex,)})
         return
@@ -551,12 +616,14 @@ def judge_merge_all(ctx, case, db, rows, ids, desc, exclude, groups, form):
         before = dbdump.dump_db(db)
         # the model: per featuretype group, one pass over the features in merge order
         runs = []
-        for grp in (groups or [None]):
+        run_group = []           # position (in `groups`) of the featuretype group each run was found in
+        for gi, grp in enumerate(groups or [None]):
             sel = [i for i, r in enumerate(rows) if grp is None or r[2] in grp]
             sel.sort(key=lambda i: (rows[i][0], rows[i][2], rows[i][1], rows[i][3]))
             feats = [model_row(rows[i]) for i in sel]
             for run in M.single_pass(feats, desc):
                 runs.append([sel[j] for j in run])
+                run_group.append(gi)
             rejected_evidence(ctx, feats, desc, prefix="merge_all: ")
             if groups and len(groups) > 1:
                 n_multi = sum(1 for run in M.single_pass(feats, desc) if len(run) > 1)
@@ -569,6 +636,7 @@ def judge_merge_all(ctx, case, db, rows, ids, desc, exclude, groups, form):
                     ctx.mon("merge_all: groups after the first whose runs differ from the default ones, merge_criteria passed as %s"
                             % (form if not (form == "callable" and len(desc) != 1) else "list"))
         multi = [r for r in runs if len(r) > 1]
+        multi_group = [g for r, g in zip(runs, run_group) if len(r) > 1]
         members = set(ids[i] for r in multi for i in r)
         kw = {"merge_criteria": in_form(ctx, "merge_all", real_criteria(ctx, desc), form), "exclude_components": exclude}
         if groups:
@@ -625,8 +693,26 @@ def judge_merge_all(ctx, case, db, rows, ids, desc, exclude, groups, form):
         if stray:
             return bad("relations were added whose parent is not a new feature", stray=stray[:5])
         if exclude:
-            if any(r[0] in members or r[1] in members for r in rel_a):
+            held = [r for r in rel_b if r[0] in members or r[1] in members]
+            left = [r for r in rel_a if r[0] in members or r[1] in members]
+            if case.get("assert_relations"):
+                ctx.mon("merge_all: relation rows of deleted members checked to be gone", len(held))
+                if left:
+                    return bad("relation rows naming a deleted member of a merged run were left behind", left=sorted(left)[:5])
+            elif left:
                 ctx.mon("merge_all: relations of deleted members left behind (not asserted)")
+            if groups and len(groups) > 1:
+                last = len(groups) - 1
+                early = [r for r, g in zip(multi, multi_group) if g != last]
+                if early:
+                    ctx.mon("merge_all exclude_components, several groups: calls with multi-member runs in a group other than the last")
+                    ctx.mon("merge_all exclude_components, several groups: members of runs in a group other than the last, each deleted",
+                            sum(len(r) for r in early))
+                    if len(set(g for g in multi_group)) > 1:
+                        ctx.mon("merge_all exclude_components, several groups: calls with multi-member runs in two or more groups")
+                    if any(r[0] in members or r[1] in members for r in rel_b
+                           if (r[0] in set(ids[i] for run in early for i in run) or r[1] in set(ids[i] for run in early for i in run))):
+                        ctx.mon("merge_all exclude_components, several groups: such members held relation rows before the call")
         else:
             want = sorted(sorted(ids[i] for i in r) for r in multi)
             got = sorted(sorted(c for p, c, lvl in rel_a if p == n and lvl == 1) for n in new)
@@ -638,6 +724,23 @@ def judge_merge_all(ctx, case, db, rows, ids, desc, exclude, groups, form):
                 ext = (min(bf[c]["start"] for c in kids), max(bf[c]["end"] for c in kids))
                 if (af[n]["start"], af[n]["end"]) != ext:
                     return bad("a new feature does not span min start .. max end of its members", id=n)
+        if is_default(desc):
+            # "per seqid, strand and type": every new feature reports the labels its members share
+            mrows = [model_row(r) for r in rows]
+            want_lab = sorted((mrows[r[0]]["seqid"], mrows[r[0]]["strand"], mrows[r[0]]["featuretype"]) + M.extent(mrows, r) for r in multi)
+            got_lab = sorted((af[i]["seqid"], af[i]["strand"], af[i]["featuretype"], af[i]["start"], af[i]["end"]) for i in new)
+            ctx.mon("merge_all: seqid / strand / type of the new features compared with their members' (default criteria)", len(new))
+            if got_lab != want_lab:
+                return bad("a new feature does not report the seqid / strand / type its members share", got=got_lab[:8], expected=want_lab[:8])
+        frames = case.get("frames")
+        if frames:
+            for r in multi:
+                fr = [frames[i] for i in r]
+                if len(set(fr)) > 1:
+                    ctx.mon("merge_all: runs whose members carry different frames: new feature and %s compared"
+                            % ("deletions" if exclude else "level-1 relations"))
+                    if min(k for k in range(len(fr)) if fr[k] != fr[0]) < len(fr) - 1:
+                        ctx.mon("merge_all: such runs with further members after the first frame change")
         if is_default(desc) and not groups:
             ctx.mon("merge_all: position-set union comparisons")
             rest = [af[i] for i in af if not ((i in members) and not exclude)]
@@ -662,8 +765,8 @@ def execute_children_bp(ctx, case):
     rows, ids, parents = case["feats"], case["ids"], case["parents"]
     dbfn = ctx.tmp(".db") if case.get("dbfile") else ":memory:"
     try:
-        db = gffutils.create_db(G.gff3(rows, ids, parents, same_source=bool(case.get("dup"))), dbfn, from_string=True,
-                                **create_kwargs(case))
+        db = gffutils.create_db(G.gff3(rows, ids, parents, same_source=bool(case.get("dup")), frames=case.get("frames")), dbfn,
+                                from_string=True, **create_kwargs(case))
     except Exception as ex:
         ctx.violation(case, {"why": "harness: building the input database raised %r" % (ex,)})
         return
@@ -726,6 +829,10 @@ def execute_children_bp(ctx, case):
                 uniform = len(set((k["seqid"], k["strand"]) for k in kids)) <= 1
                 if uniform and is_default(crit):
                     ctx.mon("children_bp: merge=True compared with union size")
+                    if case.get("frames"):
+                        kfr = [fr for r, i, fr in zip(rows, keys, case["frames"]) if r[2] == ctype and target in ancestors(i)]
+                        if len(set(kfr)) > 1 and len(M.single_pass(kids, crit)) < len(kids):
+                            ctx.mon("children_bp: merge=True over overlapping children carrying different frames compared with union size")
                     if exp != M.union_size(kids):
                         raise AssertionError("harness: single-pass model and position union disagree")
                     what = "size of the union of the children"
@@ -1019,6 +1126,94 @@ def gen_merge_all_groups(rng, k):
             "dbfile": rng.random() < 0.15}
 
 
+def gen_merge_framed(rng):
+    """merge() over runs inside which the frame column varies (objects or read from a database)."""
+    rows, frames = G.framed_feats(rng)
+    r = rng.random()
+    desc = list(M.DEFAULT) if r < 0.65 else G.criteria(rng)
+    case = {"kind": "merge", "feats": rows, "frames": frames, "criteria": desc, "again": rng.random() < 0.3,
+            "second": list(M.DEFAULT) if rng.random() < 0.5 else G.criteria(rng), "omit_criteria": rng.random() < 0.5,
+            "form": G.criteria_form(rng, desc)}
+    if rng.random() < 0.6:
+        case["source"] = "objects"
+    else:
+        case.update(source="db", ids=G.ids_for(rng, rows), dbfile=rng.random() < 0.15)
+    return case
+
+
+def gen_merge_all_framed(rng):
+    rows, frames = G.framed_feats(rng, distinct_starts=True)
+    ids = G.ids_for(rng, rows)
+    order = list(range(len(rows)))
+    rng.shuffle(order)
+    rows, ids, frames = [rows[i] for i in order], [ids[i] for i in order], [frames[i] for i in order]
+    groups = None
+    if rng.random() < 0.3:
+        groups = rng.choice([[["CDS"], ["exon"]], [["exon"], ["CDS"]], [["CDS", "exon"]]])
+    desc = list(M.DEFAULT) if rng.random() < 0.7 else G.tie_insensitive_criteria(rng)
+    return {"kind": "merge_all", "feats": rows, "ids": ids, "frames": frames, "parents": [[] for _ in rows], "criteria": desc,
+            "form": G.criteria_form(rng, desc, one_shot=not groups or len(groups) < 2),
+            "exclude_components": rng.random() < 0.5, "groups": groups, "dbfile": rng.random() < 0.15}
+
+
+def gen_children_bp_framed(rng):
+    """A gene / transcript whose CDS / exon children overlap and carry different frames, all on the gene's strand."""
+    seqid, strand = rng.choice(G.SEQIDS), rng.choice(G.STRANDS)
+    rows = [[seqid, strand, "gene", 1, 400], [seqid, strand, "mRNA", 1, 400]]
+    ids, parents, frames = ["G", "T0"], [[], ["G"]], [".", "."]
+    s = rng.randrange(1, 10)
+    n = rng.randrange(2, 9)
+    fr = G.frame_series(rng, n)
+    for j in range(n):
+        e = s + rng.choice([0, 2, 4, 9, 14])
+        rows.append([seqid, strand, rng.choice(["CDS", "CDS", "CDS", "exon"]), s, e])
+        ids.append("x%d" % j)
+        parents.append(rng.choice([["T0"], ["T0"], ["G"], ["T0", "G"]]))
+        frames.append(fr[j])
+        r = rng.random()
+        s = rng.randrange(s + 1, e + 2) if r < 0.6 else e + 1 if r < 0.7 else e + rng.randrange(2, 8)
+    order = list(range(len(rows)))
+    if rng.random() < 0.5:
+        rng.shuffle(order)
+    rows, ids, parents, frames = ([x[i] for i in order] for x in (rows, ids, parents, frames))
+    calls = []
+    for target in ("G", "T0"):
+        for ctype in ("CDS", "exon"):
+            calls.append({"of": target, "child_featuretype": ctype, "merge": False, "by": rng.choice(["id", "feature"])})
+            calls.append({"of": target, "child_featuretype": ctype, "merge": True, "by": rng.choice(["id", "feature"])})
+            if rng.random() < 0.4:
+                calls.append({"of": target, "child_featuretype": ctype, "merge": True, "by": rng.choice(["id", "feature"]),
+                              "criteria": list(M.DEFAULT), "form": G.criteria_form(rng, M.DEFAULT)})
+    return {"kind": "children_bp", "feats": rows, "ids": ids, "parents": parents, "frames": frames, "calls": calls,
+            "dbfile": rng.random() < 0.15}
+
+
+def gen_merge_all_groups_exclude(rng, k):
+    """(regression class) exclude_components=True with 2..3 featuretype groups, every group holding overlapping series of its
+    own, so that multi-member runs occur in groups other than the last; most features hang under a 'locus' feature that
+    belongs to no group, so that the members to be deleted hold relation rows."""
+    rows = G.grouped_db_feats(rng)
+    ids = G.ids_for(rng, rows)
+    parents = [[] for _ in rows]
+    frames = None
+    if rng.random() < 0.7:
+        seqid = rows[0][0]
+        parents = [["L0"] if rng.random() < 0.7 else [] for _ in rows]
+        rows = rows + [[seqid, ".", "locus", 1, max(r[4] for r in rows) + 3]]
+        ids = ids + ["L0"]
+        parents = parents + [[]]
+    if rng.random() < 0.3:
+        frames = [rng.choice(G.FRAMES) if r[2] == "CDS" else "." for r in rows]
+    r = rng.random()
+    desc = list(M.DEFAULT) if r < 0.5 else G.non_default_criteria(rng)
+    forms = ["list", "tuple", "set"] + (["callable"] if len(desc) == 1 else [])
+    case = {"kind": "merge_all", "feats": rows, "ids": ids, "parents": parents, "criteria": desc, "form": forms[k % len(forms)],
+            "exclude_components": True, "groups": rng.choice(G.GROUP_SETS), "assert_relations": True, "dbfile": rng.random() < 0.15}
+    if frames:
+        case["frames"] = frames
+    return case
+
+
 def run(ctx):
     rng = ctx.rng
     kmax = 3 if ctx.tier == "quick" else 4
@@ -1141,6 +1336,31 @@ def run(ctx):
         ctx.case((case["feats"], case["criteria"], case["exclude_components"], case["groups"], case["form"]),
                  nontrivial(sorted(case["feats"], key=lambda r: (r[0], r[2], r[1], r[3])), case["criteria"]),
                  cls="merge_all/several groups, criteria as " + case["form"])
+    # 8. the frame column varies inside the runs: merge(), merge_all(), children_bp()
+    for _ in range(ctx.budget(1000, 48000)):
+        case = gen_merge_framed(rng)
+        execute(ctx, case)
+        ctx.case((case["feats"], case["frames"], case["criteria"], case.get("second"), case["source"]),
+                 nontrivial(case["feats"], case["criteria"]), sample=case if len(case["feats"]) == 3 else None,
+                 cls="merge/frames varying inside runs, " + case["source"])
+    for _ in range(ctx.budget(300, 12000)):
+        case = gen_merge_all_framed(rng)
+        execute(ctx, case)
+        ctx.case((case["feats"], case["frames"], case["criteria"], case["exclude_components"], case["groups"]),
+                 nontrivial(sorted(case["feats"], key=lambda r: (r[0], r[2], r[1], r[3])), case["criteria"]),
+                 cls="merge_all/frames varying inside runs, " + ("exclude" if case["exclude_components"] else "keep"))
+    for _ in range(ctx.budget(120, 6000)):
+        case = gen_children_bp_framed(rng)
+        execute(ctx, case)
+        ctx.case((case["feats"], case["frames"], case["parents"], case["calls"]), len(set(case["frames"])) > 2,
+                 cls="children_bp/frames varying among the children")
+    # 9. (regression) exclude_components=True x several featuretype groups with runs in groups other than the last
+    for k in range(ctx.budget(200, 9000)):
+        case = gen_merge_all_groups_exclude(rng, k)
+        execute(ctx, case)
+        ctx.case((case["feats"], case["parents"], case["criteria"], case["groups"], case["form"], case.get("frames")),
+                 nontrivial(sorted(case["feats"], key=lambda r: (r[0], r[2], r[1], r[3])), case["criteria"]),
+                 cls="merge_all/several groups, exclude_components")
     ctx.mon("bins.bins contract evaluations", contracts.EVALS["bins.bins"])
 
 
@@ -1164,9 +1384,15 @@ MANIFEST = {
             "repeated IDs under create_unique), each copy an input of its own in the partition (by identity and by id), in "
             "merge_all's relations / deletions and in children_bp; an EMPTY merge_criteria list / tuple (one run over everything) "
             "through merge(), children_bp(merge=True) and merge_all() on the same database, compared with each other; merge_all "
-            "over several featuretype groups under non-default criteria given as list, tuple, set or one callable. "
+            "over several featuretype groups under non-default criteria given as list, tuple, set or one callable; runs inside "
+            "which the frame column varies (0/2/1 cycles, '.' mixed with digits, late changes) on '+', '-' and '.' through "
+            "merge(), merge_all() and children_bp(): extents stay the maximal union, the output reports the strand its children "
+            "share, children_bp(merge=True) equals the union size; merge_all(exclude_components=True) over several featuretype "
+            "groups with multi-member runs in groups other than the last: every member of every run, and every relation row "
+            "naming it, is gone afterwards. "
             "Held = no executed case disagreed.",
     "note": "Trusted: gvmon/models/c16_merge.py (its reading of the undocumented criteria names), create_db. Not asserted: "
-            "bin / attributes / source / seqid / strand / type of in-memory merged outputs under non-default criteria, output "
+            "bin / attributes / source / seqid / strand / type of in-memory merged outputs under non-default criteria, the frame a "
+            "merged output reports, output "
             "order, persistence of the id counters merge_all advances.",
 }
